@@ -12,6 +12,7 @@ import (
 	"strings"
 	"time"
 
+	sdkerrors "cosmossdk.io/errors"
 	abci "github.com/cometbft/cometbft/abci/types"
 	sdk "github.com/cosmos/cosmos-sdk/types"
 	"github.com/cosmos/gogoproto/proto"
@@ -273,7 +274,8 @@ func (e *Engine) Exec(tx Tx) *Report {
 	// ---- execution-mode twin: the same bytes in baseapp's simulation mode (check state == committed state here)
 	simDone, simOK := false, false
 	var simEvents []string
-	var simLog string
+	var simLog, simSpace string
+	var simCode uint32
 	if !e.NoModeTwin && len(tx.Pre) == 0 && tx.Fault == nil {
 		e.C.Store.Phase = "simulate"
 		e.C.Store.Reset()
@@ -285,6 +287,7 @@ func (e *Engine) Exec(tx Tx) *Report {
 		simDone, simOK = true, serr == nil
 		if serr != nil {
 			simLog = serr.Error()
+			simSpace, simCode, _ = sdkerrors.ABCIInfo(serr, false)
 		}
 		if sres != nil {
 			simEvents = cctpEventStrings(sres.Events)
@@ -411,6 +414,11 @@ func (e *Engine) Exec(tx Tx) *Report {
 			e.viol(props, "mode-twin", fmt.Sprintf("mode-divergence:%s:simulate=%v:deliver=%v", kindStr, simOK, rep.OK),
 				fmt.Sprintf("the same transaction on the same state %s in simulation mode but %s when delivered (simulate: %s; deliver: %s)",
 					okWord(simOK), okWord(rep.OK), trunc(simLog, 300), trunc(rep.Res.Log, 300)), e.caseOf(&tx, ""))
+		} else if !rep.OK && (simSpace != rep.Res.Codespace || simCode != rep.Res.Code) {
+			// both refuse, but with another error class: the answer depends on something besides the committed state
+			e.viol(addProp(append([]string{}, props...), "C18"), "mode-twin", fmt.Sprintf("mode-divergence-code:%s:simulate=%s/%d:deliver=%s/%d", kindStr, simSpace, simCode, rep.Res.Codespace, rep.Res.Code),
+				fmt.Sprintf("the same transaction on the same state is refused with %s/%d in simulation mode and with %s/%d when delivered (simulate: %s; deliver: %s)",
+					simSpace, simCode, rep.Res.Codespace, rep.Res.Code, trunc(simLog, 300), trunc(rep.Res.Log, 300)), e.caseOf(&tx, ""))
 		} else if rep.OK {
 			if d := cctpEventStrings(rep.Res.Events); strings.Join(d, "\n") != strings.Join(simEvents, "\n") {
 				e.viol(props, "mode-twin", "mode-divergence-events:"+kindStr,
